@@ -70,10 +70,19 @@ def build(tier, seed):
         qs.append(rc.rq("seek_%s" % tag, "h_history", spec, ops="sn" if quick else "snn", kind=0, t0l=2, witness=False))
         if not quick:
             qs.append(rc.rq("seek1_%s" % tag, "h_history", spec, ops="sn", kind=0, t0l=1, witness=False))
+    # restart array location and width for EVERY block size (incl. > 4 GiB): builder trailer vs block_init/get_restart_point
+    from vdriver import Query
+    for nr in ((2,) if quick else (1, 2, 3)):
+        qs.append(Query("estimate_all_sizes_nr%d" % nr, harness="c11_restart64.c", entry="h_estimate_all_sizes", defines={"NR": nr},
+                        units=["mtbl/varint.c", "mtbl/fixed.c"], unwind=6, object_bits=8, timeout=900, mem_gb=8, witness=(nr == 2),
+                        sample={"symbolic": "entry-area size E in 0..2^36 (bytes never touched: object of symbolic size)", "restarts": nr}))
+    qs.append(Query("block_init_consistent", harness="c11_restart64.c", entry="h_block_init_consistent", defines={"NR": 1},
+                    units=["mtbl/varint.c", "mtbl/fixed.c"], unwind=6, object_bits=8, timeout=900, mem_gb=8, witness=True,
+                    sample={"symbolic": "block size 0..2^36 (not 4..7), restart count (all 2^32), index probed"}))
     meta = {
-        "functions": rc.FUNCS, "units": ["mtbl/reader.c"] + rc.UNITS,
+        "functions": rc.FUNCS + ["block_builder_finish", "block_builder_current_size_estimate", "num_restarts"], "units": ["mtbl/reader.c"] + rc.UNITS,
         "bounds": "files of <= 3 blocks / <= 5 entries, keys <= 2 bytes, values <= 2 bytes; format v1 and v2; foreign prefix 0/1/5/130 bytes (130 forces two-byte varint offsets in the index); every restart-flag subset of a 3-entry block; maximal and non-maximal sharing; index separators anywhere in the legal interval (symbolic); index with and without restarts; compression ids 0..5 through a ghost identity codec; with and without verify_checksums. All key/value/separator/prefix bytes and stored CRC values are solver variables",
-        "outside": "64-bit restart arrays (blocks above 4 GiB: see DESIGN.md, not encodable as a file image here); multi-byte length varints inside entries (keys/values >= 128 bytes); the real decompressors (C15)",
+        "outside": "64-bit restart arrays are decided at the geometry level only (block_init/get_restart_point for every size up to 2^36 and every count; the builder's size estimate) -- block_builder_finish writing 8-byte slots and whole files above 4 GiB are not executed; multi-byte length varints inside entries (keys/values >= 128 bytes); the real decompressors (C15)",
         "stubs": rc.STUBS,
         "assumptions": ["the reference encoder in harness/ref_encode.h is the format (written from the format description, shares no code with the writer)"],
         "exhaustive": False,
